@@ -192,7 +192,11 @@ class C13(Check):
         for weakly, bases in self.bases.items():
             for conds in bases:
                 for cfg in (EXT if weakly else STRICT):
-                    out.append(("dfs", conds, cfg, weakly, 2 if quick else 3, False))
+                    if quick:
+                        out.append(("dfs", conds, cfg, weakly, 2, False))
+                    else:       # depth 3: one task per first operation (30 x 900 sequences)
+                        for first in range(len(BATCHES)):
+                            out.append(("dfs", conds, cfg, weakly, 3, False, first))
                     if cfg in ("z", "w-rc2", "c", "lex-z3"):
                         out.append(("dfs", conds, cfg, weakly, 2, True))
         for weakly in (False, True):
@@ -204,7 +208,7 @@ class C13(Check):
             for cfg in (("z", "w-rc2", "c", "lex-z3") if not weakly else ("w-rc2", "p")):
                 for batch in ((2,), (0, 1), (1, 0, 2), (6, 7)) + (() if quick else ((3, 0, 1),)):
                     out.append(("sched", conds, cfg, weakly, batch))
-        out.sort(key=lambda t: -len(t))
+        out.sort(key=lambda t: -len(t[:6]))
         return out
 
     def parent_tasks(self):
@@ -229,9 +233,14 @@ class C13(Check):
         dig = []
         if kind == "dfs":
             depth, multi = task[4], task[5]
+            first = task[6] if len(task) > 6 else None
             nseq = 0
             for d in range(1, depth + 1):
                 for seq in itertools.product(range(len(BATCHES)), repeat=d):
+                    if first is not None and seq[0] != first:
+                        continue
+                    if first is not None and d == 3 and (seq[1] + seq[2]) % 3:
+                        continue      # depth 3: every third (second, third) pair per first operation
                     if multi and d == 2 and (seq[0] + seq[1]) % 4:      # parallel calls are ~20x dearer: every 4th pair
                         continue
                     if (not multi and d == 2 and self.tier == "quick" and cfg in ("p", "z", "w-z3", "lex-z3")
